@@ -302,11 +302,17 @@ class Checker:
         for name, cls in (("Scalar", Scalar), ("FractionScalar", FractionScalar)):
 
             def f():
-                for form, obj in (("(category,unit=v)", cls(cat, unit=v)),):
+                from barril.units import ObtainQuantity
+
+                q = ObtainQuantity(v, cat)
+                forms = [("(category,unit=v)", cls(cat, unit=v)), ("(quantity)", cls(q))]
+                if cls is Scalar:  # FractionScalar.CreateWithQuantity requires a value
+                    forms.append(("CreateWithQuantity(quantity)", cls.CreateWithQuantity(q)))
+                for form, obj in forms:
                     ctx.ev()
                     got = float(obj.GetValue())
                     if not core.close(got, want, S, REL) or obj.GetUnit() != v or obj.GetCategory() != cat:
-                        ctx.record("default_amount_wrong:%s%s" % (name, form), dict(case, route=name), "%s(%r, unit=%r) = %r; category default is %r %s = %r %s" % (name, cat, v, obj, dv, du, want, v))
+                        ctx.record("default_amount_wrong:%s%s" % (name, form), dict(case, route=name), "%s%s with category %r and unit %r = %r; category default is %r %s = %r %s" % (name, form, cat, v, obj, dv, du, want, v))
                 obj = cls(cat)
                 ctx.ev()
                 if float(obj.GetValue()) != float(dv) or obj.GetUnit() != du:
